@@ -8,7 +8,6 @@ import (
 	"os"
 	"path/filepath"
 	"slices"
-	"strconv"
 	"strings"
 	"sync"
 	"testing"
@@ -80,19 +79,16 @@ func Clean(m *testing.M, opts ...CleanOpts) {
 	// This is just for making sure Clean is called from TestMain
 	_ = m
 	runOnly := flag.Lookup("test.run").Value.String()
-	count, _ := strconv.Atoi(flag.Lookup("test.count").Value.String())
-	// The number of snapshots a test takes in one execution is its total divided by the
-	// times it was executed. This is not always -count: the runner stops repeating
-	// when no test matched -run or with -failfast.
+	// The registries keep the highest occurrence every test reached in one of its
+	// executions, so the snapshots a test takes are known without dividing totals by
+	// -count (the runner stops repeating when no test matched -run or with -failfast,
+	// and an execution can stop early).
 	registeredStandaloneTests := occurrences(
-		perExecution(standaloneTestsRegistry.cleanup, standaloneTestsRegistry.executions, count),
+		standaloneTestsRegistry.highest,
 		1,
 		standaloneOccurrenceFMT,
 	)
-	registeredTests := make(map[string]map[string]int, len(testsRegistry.cleanup))
-	for snapPath, tests := range testsRegistry.cleanup {
-		registeredTests[snapPath] = perExecution(tests, testsRegistry.executions[snapPath], count)
-	}
+	registeredTests := testsRegistry.highest
 
 	obsoleteFiles, usedFiles := examineFiles(
 		registeredTests,
@@ -429,24 +425,6 @@ func standaloneOccurrenceFMT(s string, i int) string {
 
 func snapshotOccurrenceFMT(s string, i int) string {
 	return fmt.Sprintf("%s - %d", s, i)
-}
-
-// perExecution divides the total number of snapshots of each test by the number of times
-// the test was executed, falling back to count when the executions are not known.
-func perExecution(total, executions map[string]int, count int) map[string]int {
-	result := make(map[string]int, len(total))
-	for testID, counter := range total {
-		n := executions[testID]
-		if n < 1 {
-			n = count
-		}
-		if n < 1 {
-			n = 1
-		}
-		result[testID] = counter / n
-	}
-
-	return result
 }
 
 // Builds a Set with all snapshot ids registered. It uses the provider formatter to build keys.
